@@ -113,7 +113,7 @@ pub fn cells_from_str(s: &str) -> Vec<CellT> {
 }
 
 #[derive(Default, Clone, Debug)]
-pub struct WalkStats { pub n_cells: usize, pub deep_size: usize, pub flat_checked: bool, pub mixed_flags: bool, pub mixed_depths: bool }
+pub struct WalkStats { pub n_cells: usize, pub deep_size: usize, pub flat_checked: bool, pub prefix_checked: bool, pub mixed_flags: bool, pub mixed_depths: bool }
 
 /// C09 invariant walker. Err(description) on the first broken invariant.
 pub fn walk(b: &BMOC, flat_limit: usize) -> Result<WalkStats, String> {
@@ -189,8 +189,37 @@ pub fn walk(b: &BMOC, flat_limit: usize) -> Result<WalkStats, String> {
     let mut k = 0;
     for r in rg.iter() { for x in r.clone() { if k >= flat.len() || flat[k].0 != x { return Err("expansion of to_ranges differs from the flat view".into()); } k += 1; } }
     if k != flat.len() { return Err("expansion of to_ranges shorter than the flat view".into()); }
+  } else {
+    // too many deepest cells to flatten: the lazy views are checked on a prefix, and on small BMOCs rebuilt from single coarse entries
+    // (+ their follower) so that the hand-over from one entry to the next is observed for every delta depth that can be walked
+    st.prefix_checked = true;
+    prefix_check(b, dm, &cells, 4096)?;
+    let mut seen_dd = std::collections::BTreeSet::new();
+    for (k, &(d, _, _)) in cells.iter().enumerate() {
+      let dd = dm - d; if dd < 7 || dd > 24 || !seen_dd.insert(dd) { continue; }
+      let sub: Vec<CellT> = cells[k..(k + 2).min(cells.len())].to_vec();
+      let sb = to_bmoc(dm, &sub);
+      prefix_check(&sb, dm, &sub, 70_000).map_err(|e| format!("BMOC rebuilt from entries {}..{} ({}): {}", k, k + sub.len(), fmt_cells(&sub), e))?;
+      if seen_dd.len() >= 10 { break; }
+    }
   }
   Ok(st)
+}
+
+/// first `limit` elements of flat_iter / flat_iter_cell against the decoded entries
+fn prefix_check(b: &BMOC, dm: u8, cells: &[CellT], limit: usize) -> Result<(), String> {
+  let mut want: Vec<(u64, bool, u64)> = Vec::with_capacity(limit);
+  'o: for (k, &(d, h, f)) in cells.iter().enumerate() { let s = 2 * (dm - d) as u32; let mut x = h << s; let e = (h + 1) << s; while x < e { if want.len() >= limit { break 'o; } want.push((x, f, b.entries[k])); x += 1; } }
+  let mut n = 0;
+  for (k, x) in b.flat_iter().take(want.len()).enumerate() { if x != want[k].0 { return Err(format!("flat_iter element {} = {} expected {} (prefix of a large BMOC)", k, x, want[k].0)); } n += 1; }
+  if n != want.len() { return Err(format!("flat_iter ends after {} cells, at least {} expected", n, want.len())); }
+  let mut n = 0;
+  for (k, c) in b.flat_iter_cell().take(want.len()).enumerate() {
+    if c.hash != want[k].0 || c.is_full != want[k].1 || c.raw_value != want[k].2 || c.depth != dm { return Err(format!("flat_iter_cell element {} = (hash {}, full {}, raw {:#x}, depth {}) expected (hash {}, full {}, raw {:#x}, depth {}) (prefix of a large BMOC)", k, c.hash, c.is_full, c.raw_value, c.depth, want[k].0, want[k].1, want[k].2, dm)); }
+    n += 1;
+  }
+  if n != want.len() { return Err(format!("flat_iter_cell ends after {} cells, at least {} expected", n, want.len())); }
+  Ok(())
 }
 
 /// run the walker, report a C09 violation (or info if another property is being judged); returns the decoded cells when well formed
@@ -200,6 +229,7 @@ pub fn walk_or_report(ctx: &mut Ctx, b: &BMOC, producer: &str, case: &Case, is_c
     Ok(st) => {
       ctx.bump("bmocs-walked");
       if st.mixed_flags || st.mixed_depths { ctx.bump("bmocs-walked:mixed-flags-or-depths"); }
+      if st.flat_checked { ctx.bump("bmocs-walked:flat-views-compared-in-full"); } else if st.prefix_checked { ctx.bump("bmocs-walked:too-large-to-flatten,lazy-views-compared-on-prefixes-and-per-coarse-entry"); }
       Some(cells_of(b))
     }
     Err(e) => {
